@@ -526,6 +526,28 @@ def run_autoreconnect(desc, ctx):
                         full.set()
                 rec = harness.Recorder(cf, on_event=on_event)   # noqa
                 import threading
+                # the same detector as in the main part: a disconnect handled in one thread while the dispatcher thread is
+                # in the middle of a packet is the one pattern the library does not synchronise (known finding)
+                handling = {'n': 0}
+
+                def guard(f):
+                    def w(*a, **kw):
+                        me = threading.current_thread()
+                        if spec.dispatching is not None and spec.dispatching is not me:
+                            ob['overlap'] = True
+                        handling['n'] += 1
+                        try:
+                            return f(*a, **kw)
+                        finally:
+                            handling['n'] -= 1
+                    return w
+                cf._link_error_cb = guard(cf._link_error_cb)
+                cf.close_link = guard(cf.close_link)
+
+                def on_dispatch_start():
+                    if handling['n'] > 0:
+                        ob['overlap'] = True
+                spec.on_dispatch_start = on_dispatch_start
 
                 def reopener():
                     go.wait(200.0)
@@ -567,7 +589,12 @@ def run_autoreconnect(desc, ctx):
             want = ['connection_requested', 'link_established', 'connected'] + (['fully_connected'] if dev.params else [])
             got = [n for n in second if n in want]
             if got != want or any(n in ('connection_failed', 'connection_lost') for n in second):
-                ctx.violate('R9:reconnect-at-once-did-not-complete:got-' + '+'.join(second[:5] or ['nothing']), info, replay=rp)
+                mech = 'R9:reconnect-at-once-did-not-complete:got-' + '+'.join(second[:5] or ['nothing'])
+                if ob.get('overlap'):
+                    info = dict(info, rule_broken=mech)
+                    mech = 'race:disconnect-handled-while-dispatcher-mid-packet'
+                    ctx.count('mon.runs_with_concurrent_dispatch_and_disconnect')
+                ctx.violate(mech, info, replay=rp)
 
 
 def run(desc, ctx):
